@@ -23,7 +23,7 @@ def Coh : Op → Prop
     Coh a ∧ Coh b ∧ (st.ph = .idle → AllIdle a ∧ AllIdle b) ∧
     (st.ph = .running →
       match k with
-      | .whenAll | .stopWhen =>
+      | .whenAll | .stopWhen | .whenAny =>
         (st.ra.isSome = true ↔ a.phase = .finished) ∧ (st.rb.isSome = true ↔ b.phase = .finished) ∧
         (st.ra.isNone = true → a.phase = .running) ∧ (st.rb.isNone = true → b.phase = .running) ∧
         (st.ra.isNone = true ∨ st.rb.isNone = true)
@@ -43,7 +43,7 @@ theorem pending_of_running : ∀ (op : Op), Coh op → op.phase = .running → o
     have hr := hr hp
     simp only [Op.pending]
     cases k
-    case whenAll | stopWhen =>
+    case whenAll | stopWhen | whenAny =>
       simp only [] at hr
       obtain ⟨_, _, h3, h4, h5⟩ := hr
       rcases h5 with h5 | h5
@@ -134,24 +134,24 @@ theorem unStep_coh (rec : Rec) (n : Nat) (hrec : RecCoh rec n) (ev : Ev) (k : Un
   all_goals
     exact stepOk_unchanged _ _ _ ⟨hc, hrun, hidle⟩ (by intro hi ⟨e, he⟩; first | (simp [AllIdle] at hi; done) | cases he)
 
-theorem coh_seq (k : BinKind) (a b : Op) (st : BinSt) (h1 : k ≠ .whenAll) (h2 : k ≠ .stopWhen) :
+theorem coh_seq (k : BinKind) (a b : Op) (st : BinSt) (h1 : k ≠ .whenAll) (h2 : k ≠ .stopWhen) (h3 : k ≠ .whenAny) :
     Coh (.bin k a b st) ↔
       (Coh a ∧ Coh b ∧ (st.ph = .idle → AllIdle a ∧ AllIdle b) ∧
        (st.ph = .running →
           (st.second = false → a.phase = .running ∧ AllIdle b) ∧ (st.second = true → b.phase = .running))) := by
   cases k <;> simp_all [Coh]
 
-theorem coh_par (k : BinKind) (a b : Op) (st : BinSt) (h : k = .whenAll ∨ k = .stopWhen) :
+theorem coh_par (k : BinKind) (a b : Op) (st : BinSt) (h : k = .whenAll ∨ k = .stopWhen ∨ k = .whenAny) :
     Coh (.bin k a b st) ↔
       (Coh a ∧ Coh b ∧ (st.ph = .idle → AllIdle a ∧ AllIdle b) ∧
        (st.ph = .running →
         (st.ra.isSome = true ↔ a.phase = .finished) ∧ (st.rb.isSome = true ↔ b.phase = .finished) ∧
         (st.ra.isNone = true → a.phase = .running) ∧ (st.rb.isNone = true → b.phase = .running) ∧
         (st.ra.isNone = true ∨ st.rb.isNone = true))) := by
-  rcases h with h | h <;> subst h <;> simp [Coh]
+  rcases h with h | h | h <;> subst h <;> simp [Coh]
 
 theorem seqAfterFirst_coh (rec : Rec) (n : Nat) (hrec : RecCoh rec n) (k : BinKind) (b : Op) (st : BinSt)
-    (env : Env) (ra : Res) (h1 : k ≠ .whenAll) (h2 : k ≠ .stopWhen)
+    (env : Env) (ra : Res) (h1 : k ≠ .whenAll) (h2 : k ≠ .stopWhen) (h3 : k ≠ .whenAny)
     (hca : Coh ra.1) (hrun : ra.2.2 = none → ra.1.phase = .running)
     (hib : AllIdle b) (hhb : b.height ≤ n) :
     Coh (seqAfterFirst rec k b st env ra).1 ∧
@@ -161,7 +161,7 @@ theorem seqAfterFirst_coh (rec : Rec) (n : Nat) (hrec : RecCoh rec n) (k : BinKi
   cases hr : ra.2.2 with
   | none =>
     simp only []
-    rw [coh_seq _ _ _ _ h1 h2]
+    rw [coh_seq _ _ _ _ h1 h2 h3]
     exact ⟨⟨hca, allIdle_coh b hib, by simp, fun _ => ⟨fun _ => ⟨hrun hr, hib⟩, by simp⟩⟩, fun _ => rfl, rfl⟩
   | some o =>
     simp only []
@@ -172,19 +172,19 @@ theorem seqAfterFirst_coh (rec : Rec) (n : Nat) (hrec : RecCoh rec n) (k : BinKi
       cases hr2 : (rec (Ev.start (k.succEnv env o)) b).2.2 with
       | none =>
         simp only []
-        rw [coh_seq _ _ _ _ h1 h2]
+        rw [coh_seq _ _ _ _ h1 h2 h3]
         refine ⟨⟨hca, hcb, by simp, fun _ => ⟨by simp, fun _ => hsb hr2⟩⟩, fun _ => rfl, ?_⟩
         simp [Op.height, hhb']
       | some ob =>
         simp only []
-        rw [coh_seq _ _ _ _ h1 h2]
+        rw [coh_seq _ _ _ _ h1 h2 h3]
         refine ⟨⟨hca, hcb, by simp, by simp⟩, by simp, ?_⟩
         simp [Op.height, hhb']
-    · rw [coh_seq _ _ _ _ h1 h2]
+    · rw [coh_seq _ _ _ _ h1 h2 h3]
       exact ⟨⟨hca, allIdle_coh b hib, by simp, by simp⟩, by simp, rfl⟩
 
 theorem seqSecond_coh (k : BinKind) (a : Op) (st : BinSt) (env : Env) (rb : Res)
-    (h1 : k ≠ .whenAll) (h2 : k ≠ .stopWhen) (hph : st.ph = .running) (hsec : st.second = true)
+    (h1 : k ≠ .whenAll) (h2 : k ≠ .stopWhen) (h3 : k ≠ .whenAny) (hph : st.ph = .running) (hsec : st.second = true)
     (hca : Coh a) (hcb : Coh rb.1) (hrun : rb.2.2 = none → rb.1.phase = .running) :
     Coh (seqSecond k a st env rb).1 ∧
     ((seqSecond k a st env rb).2.2 = none → (seqSecond k a st env rb).1.phase = .running) ∧
@@ -193,45 +193,45 @@ theorem seqSecond_coh (k : BinKind) (a : Op) (st : BinSt) (env : Env) (rb : Res)
   cases hr : rb.2.2 with
   | none =>
     simp only []
-    rw [coh_seq _ _ _ _ h1 h2]
+    rw [coh_seq _ _ _ _ h1 h2 h3]
     exact ⟨⟨hca, hcb, by simp [hph], fun _ => ⟨by simp [hsec], fun _ => hrun hr⟩⟩, fun _ => by simp [Op.phase, hph], rfl⟩
   | some ob =>
     simp only []
-    rw [coh_seq _ _ _ _ h1 h2]
+    rw [coh_seq _ _ _ _ h1 h2 h3]
     exact ⟨⟨hca, hcb, by simp, by simp⟩, by simp, rfl⟩
 
 theorem seqStep_coh (rec : Rec) (n : Nat) (hrec : RecCoh rec n) (ev : Ev) (k : BinKind) (a b : Op) (st : BinSt)
-    (h1 : k ≠ .whenAll) (h2 : k ≠ .stopWhen) (hha : a.height ≤ n) (hhb : b.height ≤ n)
+    (h1 : k ≠ .whenAll) (h2 : k ≠ .stopWhen) (h3 : k ≠ .whenAny) (hha : a.height ≤ n) (hhb : b.height ≤ n)
     (h : Coh (.bin k a b st)) :
     StepOk (.bin k a b st) (seqStep rec ev k a b st) ev := by
   have h' := h
-  rw [coh_seq _ _ _ _ h1 h2] at h
+  rw [coh_seq _ _ _ _ h1 h2 h3] at h
   obtain ⟨hca, hcb, hidle, hrun⟩ := h
   unfold seqStep
   cases hph : st.ph <;> cases hsec : st.second <;> cases ev <;> simp only []
   case idle.false.start env0 | idle.true.start env0 =>
     have hi := hidle hph
-    obtain ⟨w1, w2, w3⟩ := seqAfterFirst_coh rec n hrec k b st env0 (rec (.start env0) a) h1 h2
+    obtain ⟨w1, w2, w3⟩ := seqAfterFirst_coh rec n hrec k b st env0 (rec (.start env0) a) h1 h2 h3
       (hrec.coh _ a hha hca) (hrec.start env0 a hha hi.1) hi.2 hhb
     exact ⟨w1, fun _ => w2, fun _ _ => w2, by rw [w3, hrec.height _ a hha hca]; rfl⟩
   case running.false.stop =>
     have hr := (hrun hph).1 hsec
-    obtain ⟨w1, w2, w3⟩ := seqAfterFirst_coh rec n hrec k b st st.env.stop (rec .stop a) h1 h2
+    obtain ⟨w1, w2, w3⟩ := seqAfterFirst_coh rec n hrec k b st st.env.stop (rec .stop a) h1 h2 h3
       (hrec.coh _ a hha hca) (hrec.run _ a hha hca hr.1) hr.2 hhb
     exact ⟨w1, fun _ => w2, fun _ _ => w2, by rw [w3, hrec.height _ a hha hca]; rfl⟩
   case running.false.complete i o =>
     have hr := (hrun hph).1 hsec
-    obtain ⟨w1, w2, w3⟩ := seqAfterFirst_coh rec n hrec k b st st.env (rec (.complete i o) a) h1 h2
+    obtain ⟨w1, w2, w3⟩ := seqAfterFirst_coh rec n hrec k b st st.env (rec (.complete i o) a) h1 h2 h3
       (hrec.coh _ a hha hca) (hrec.run _ a hha hca hr.1) hr.2 hhb
     exact ⟨w1, fun _ => w2, fun _ _ => w2, by rw [w3, hrec.height _ a hha hca]; rfl⟩
   case running.true.stop =>
     have hr := (hrun hph).2 hsec
-    obtain ⟨w1, w2, w3⟩ := seqSecond_coh k a st st.env.stop (rec .stop b) h1 h2 hph hsec hca
+    obtain ⟨w1, w2, w3⟩ := seqSecond_coh k a st st.env.stop (rec .stop b) h1 h2 h3 hph hsec hca
       (hrec.coh _ b hhb hcb) (hrec.run _ b hhb hcb hr)
     exact ⟨w1, fun _ => w2, fun _ _ => w2, by rw [w3, hrec.height _ b hhb hcb]; rfl⟩
   case running.true.complete i o =>
     have hr := (hrun hph).2 hsec
-    obtain ⟨w1, w2, w3⟩ := seqSecond_coh k a st st.env (rec (.complete i o) b) h1 h2 hph hsec hca
+    obtain ⟨w1, w2, w3⟩ := seqSecond_coh k a st st.env (rec (.complete i o) b) h1 h2 h3 hph hsec hca
       (hrec.coh _ b hhb hcb) (hrec.run _ b hhb hcb hr)
     exact ⟨w1, fun _ => w2, fun _ _ => w2, by rw [w3, hrec.height _ b hhb hcb]; rfl⟩
   all_goals
@@ -256,16 +256,14 @@ structure Par (a b : Op) (st : BinSt) (n hA hB : Nat) : Prop where
 @[simp] theorem markSrc_ra (st : BinSt) (c : Bool) : (markSrc st c).ra = st.ra := by cases c <;> simp [markSrc]
 @[simp] theorem markSrc_rb (st : BinSt) (c : Bool) : (markSrc st c).rb = st.rb := by cases c <;> simp [markSrc]
 
-theorem waRec_ra_true (st : BinSt) (r : Option Outcome) :
-    (waRec st true r).1.ra = (match r with | some o => some o | none => st.ra) := by
-  cases r <;> simp [waRec]
-theorem waRec_rb_true (st : BinSt) (r : Option Outcome) : (waRec st true r).1.rb = st.rb := by
-  cases r <;> simp [waRec]
-theorem waRec_rb_false (st : BinSt) (r : Option Outcome) :
-    (waRec st false r).1.rb = (match r with | some o => some o | none => st.rb) := by
-  cases r <;> simp [waRec]
-theorem waRec_ra_false (st : BinSt) (r : Option Outcome) : (waRec st false r).1.ra = st.ra := by
-  cases r <;> simp [waRec]
+theorem isNone_not {α : Type} (o : Option α) : o.isNone = !o.isSome := by cases o <;> rfl
+theorem matchSome_isSome {α : Type} (r x : Option α) :
+    (match r with | some o => some o | none => x).isSome = (r.isSome || x.isSome) := by cases r <;> simp
+
+@[simp] theorem waRecord_ra_true_isNone (any : Bool) (st : BinSt) (o : Outcome) : ((waRecord any st true o).1.ra).isNone = false := by
+  rw [isNone_not]; simp
+@[simp] theorem waRecord_rb_false_isNone (any : Bool) (st : BinSt) (o : Outcome) : ((waRecord any st false o).1.rb).isNone = false := by
+  rw [isNone_not]; simp
 
 /-- facts about delivering `.stop` (conditionally) to a child that is consistent with its record -/
 theorem recIf_stop_coh (rec : Rec) (n : Nat) (hrec : RecCoh rec n) (cond : Bool) (x : Op)
@@ -281,7 +279,7 @@ theorem recIf_stop_coh (rec : Rec) (n : Nat) (hrec : RecCoh rec n) (cond : Bool)
     refine ⟨hrec.coh _ x hh hx, hrec.height _ x hh hx, ?_, hrec.fin _ x, by simp⟩
     intro hn; rw [hrec.run _ x hh hx (hrun rfl) hn, hrun rfl]
 
-theorem waAfterChild_par (rec : Rec) (n hA hB : Nat) (hrec : RecCoh rec n) (isA : Bool) (a b : Op) (st : BinSt)
+theorem waAfterChild_par (rec : Rec) (n hA hB : Nat) (hrec : RecCoh rec n) (any : Bool) (isA : Bool) (a b : Op) (st : BinSt)
     (r : Option Outcome)
     (ca : Coh a) (cb : Coh b) (ha : a.height = hA) (hb : b.height = hB) (la : hA ≤ n) (lb : hB ≤ n)
     (hA' : if isA then (∀ o, r = some o → a.phase = .finished ∧ st.ra.isNone = true) ∧
@@ -290,8 +288,8 @@ theorem waAfterChild_par (rec : Rec) (n hA hB : Nat) (hrec : RecCoh rec n) (isA 
     (hB' : if isA then (st.rb.isSome = true ↔ b.phase = .finished) ∧ (st.rb.isNone = true → b.phase = .running)
           else (∀ o, r = some o → b.phase = .finished ∧ st.rb.isNone = true) ∧
                (r = none → (st.rb.isSome = true ↔ b.phase = .finished) ∧ (st.rb.isNone = true → b.phase = .running))) :
-    Par (waAfterChild rec isA a b st r).1 (waAfterChild rec isA a b st r).2.1
-        (waAfterChild rec isA a b st r).2.2.1 n hA hB := by
+    Par (waAfterChild rec any isA a b st r).1 (waAfterChild rec any isA a b st r).2.1
+        (waAfterChild rec any isA a b st r).2.2.1 n hA hB := by
   cases r with
   | none =>
     cases isA <;> simp_all [waAfterChild] <;>
@@ -302,48 +300,44 @@ theorem waAfterChild_par (rec : Rec) (n hA hB : Nat) (hrec : RecCoh rec n) (isA 
       simp only [if_true] at hA' hB'
       obtain ⟨hfin, hnone⟩ := hA'.1 o rfl
       simp only [waAfterChild, if_true]
-      have hs := recIf_stop_coh rec n hrec ((waRecord st true o).2 && (markSrc (waRecord st true o).1 (waRecord st true o).2).rb.isNone)
+      have hs := recIf_stop_coh rec n hrec ((waRecord any st true o).2 && (markSrc (waRecord any st true o).1 (waRecord any st true o).2).rb.isNone)
         b cb (hb ▸ lb) (by
           intro hc
           simp only [Bool.and_eq_true, markSrc_rb, waRecord_rb_true] at hc
           exact hB'.2 hc.2)
-      generalize hc : ((waRecord st true o).2 && (markSrc (waRecord st true o).1 (waRecord st true o).2).rb.isNone) = cond at hs
+      generalize hc : ((waRecord any st true o).2 && (markSrc (waRecord any st true o).1 (waRecord any st true o).2).rb.isNone) = cond at hs
       generalize hrb : recIf rec cond Ev.stop b = rb at hs
       obtain ⟨s1, s2, s3, s4, s5⟩ := hs
       refine ⟨ca, s1, ?_, ?_, ?_, ?_, ha, s2.trans hb, la, lb⟩
-      · simp [waRec_ra_false, hfin]
-      · rw [waRec_rb_false]
-        cases hq : rb.2.2 with
-        | none => simp only [markSrc_rb, waRecord_rb_true]; rw [s3 hq]; exact hB'.1
-        | some ob => simp [s4 ob hq]
-      · simp [waRec_ra_false]
-      · rw [waRec_rb_false]
-        cases hq : rb.2.2 with
-        | none => simp only [markSrc_rb, waRecord_rb_true]; rw [s3 hq]; exact hB'.2
-        | some ob => simp
+      · simp [waRec_ra_of_false, hfin]
+      · cases hq : rb.2.2 with
+        | none => simp only [waRec, markSrc_rb, waRecord_rb_true]; rw [s3 hq]; exact hB'.1
+        | some ob => simp [waRec, s4 ob hq]
+      · simp [waRec_ra_of_false]
+      · cases hq : rb.2.2 with
+        | none => simp only [waRec, markSrc_rb, waRecord_rb_true]; rw [s3 hq]; exact hB'.2
+        | some ob => simp [waRec]
     | false =>
       simp only [Bool.false_eq_true, if_false] at hA' hB'
       obtain ⟨hfin, hnone⟩ := hB'.1 o rfl
       simp only [waAfterChild, Bool.false_eq_true, if_false]
-      have hs := recIf_stop_coh rec n hrec ((waRecord st false o).2 && (markSrc (waRecord st false o).1 (waRecord st false o).2).ra.isNone)
+      have hs := recIf_stop_coh rec n hrec ((waRecord any st false o).2 && (markSrc (waRecord any st false o).1 (waRecord any st false o).2).ra.isNone)
         a ca (ha ▸ la) (by
           intro hc
           simp only [Bool.and_eq_true, markSrc_ra, waRecord_ra_false] at hc
           exact hA'.2 hc.2)
-      generalize hc : ((waRecord st false o).2 && (markSrc (waRecord st false o).1 (waRecord st false o).2).ra.isNone) = cond at hs
+      generalize hc : ((waRecord any st false o).2 && (markSrc (waRecord any st false o).1 (waRecord any st false o).2).ra.isNone) = cond at hs
       generalize hra : recIf rec cond Ev.stop a = ra at hs
       obtain ⟨s1, s2, s3, s4, s5⟩ := hs
       refine ⟨s1, cb, ?_, ?_, ?_, ?_, s2.trans ha, hb, la, lb⟩
-      · rw [waRec_ra_true]
-        cases hq : ra.2.2 with
-        | none => simp only [markSrc_ra, waRecord_ra_false]; rw [s3 hq]; exact hA'.1
-        | some oa => simp [s4 oa hq]
-      · simp [waRec_rb_true, hfin]
-      · rw [waRec_ra_true]
-        cases hq : ra.2.2 with
-        | none => simp only [markSrc_ra, waRecord_ra_false]; rw [s3 hq]; exact hA'.2
-        | some oa => simp
-      · simp [waRec_rb_true]
+      · cases hq : ra.2.2 with
+        | none => simp only [waRec, markSrc_ra, waRecord_ra_false]; rw [s3 hq]; exact hA'.1
+        | some oa => simp [waRec, s4 oa hq]
+      · simp [waRec_rb_of_true, hfin]
+      · cases hq : ra.2.2 with
+        | none => simp only [waRec, markSrc_ra, waRecord_ra_false]; rw [s3 hq]; exact hA'.2
+        | some oa => simp [waRec]
+      · simp [waRec_rb_of_true]
 
 /-- deliver a non-start event to a child that is consistent with its record -/
 theorem par_deliver (rec : Rec) (n : Nat) (hrec : RecCoh rec n) (cond : Bool) (ev : Ev) (x : Op) (rx : Option Outcome)
@@ -379,82 +373,92 @@ theorem par_deliver (rec : Rec) (n : Nat) (hrec : RecCoh rec n) (cond : Bool) (e
         rw [(hrec.inert ev x hf).1]
         simp [hf]
 
-theorem waFinish_coh (a b : Op) (st : BinSt) (outs : List Out) (n hA hB : Nat) (hph : st.ph = .running)
+theorem waFinish_coh (k : BinKind) (hk : k = .whenAll ∨ k = .whenAny) (a b : Op) (st : BinSt) (outs : List Out) (n hA hB : Nat) (hph : st.ph = .running)
     (h : Par a b st n hA hB) :
-    Coh (waFinish a b st outs).1 ∧
-    ((waFinish a b st outs).2.2 = none → (waFinish a b st outs).1.phase = .running) ∧
-    (waFinish a b st outs).1.height = max hA hB + 1 := by
+    Coh (waFinish k a b st outs).1 ∧
+    ((waFinish k a b st outs).2.2 = none → (waFinish k a b st outs).1.phase = .running) ∧
+    (waFinish k a b st outs).1.height = max hA hB + 1 := by
+  have hk' : k = .whenAll ∨ k = .stopWhen ∨ k = .whenAny := by rcases hk with h | h <;> simp [h]
   unfold waFinish
   split
-  · rw [coh_par _ _ _ _ (Or.inl rfl)]
+  · rw [coh_par _ _ _ _ hk']
     exact ⟨⟨h.ca, h.cb, by simp, by simp⟩, by simp, by simp [Op.height, h.ha, h.hb]⟩
   · rename_i hc
-    rw [coh_par _ _ _ _ (Or.inl rfl)]
+    rw [coh_par _ _ _ _ hk']
     refine ⟨⟨h.ca, h.cb, by simp [hph], fun _ => ⟨h.ra, h.rb, h.na, h.nb, ?_⟩⟩, fun _ => by simp [Op.phase, hph],
       by simp [Op.height, h.ha, h.hb]⟩
     cases h1 : st.ra <;> cases h2 : st.rb <;> simp_all
 
-theorem waComplete_coh (rec : Rec) (n hA hB : Nat) (hrec : RecCoh rec n) (a b : Op) (st : BinSt) (i : Nat) (o : Outcome)
+theorem waComplete_coh (rec : Rec) (n hA hB : Nat) (hrec : RecCoh rec n) (k : BinKind) (hk : k = .whenAll ∨ k = .whenAny)
+    (a b : Op) (st : BinSt) (i : Nat) (o : Outcome)
     (hph : st.ph = .running) (h : Par a b st n hA hB) :
-    Coh (waComplete rec a b st i o).1 ∧
-    ((waComplete rec a b st i o).2.2 = none → (waComplete rec a b st i o).1.phase = .running) ∧
-    (waComplete rec a b st i o).1.height = max hA hB + 1 := by
+    Coh (waComplete rec k a b st i o).1 ∧
+    ((waComplete rec k a b st i o).2.2 = none → (waComplete rec k a b st i o).1.phase = .running) ∧
+    (waComplete rec k a b st i o).1.height = max hA hB + 1 := by
   unfold waComplete
   simp only []
   have dA := par_deliver rec n hrec true (.complete i o) a st.ra h.ca (h.ha ▸ h.la) h.ra h.na
   simp only [recIf, if_true] at dA
-  have hx := waAfterChild_par rec n hA hB hrec true (rec (.complete i o) a).1 b st (rec (.complete i o) a).2.2
+  have hx := waAfterChild_par rec n hA hB hrec k.isAny true (rec (.complete i o) a).1 b st (rec (.complete i o) a).2.2
     dA.1 h.cb (dA.2.1.trans h.ha) h.hb h.la h.lb (by simp only [if_true]; exact ⟨dA.2.2.1, dA.2.2.2⟩)
     (by simp only [if_true]; exact ⟨h.rb, h.nb⟩)
-  have hphx := waAfterChild_ph rec true (rec (.complete i o) a).1 b st (rec (.complete i o) a).2.2
-  generalize waAfterChild rec true (rec (.complete i o) a).1 b st (rec (.complete i o) a).2.2 = x at hx hphx ⊢
+  have hphx := waAfterChild_ph rec k.isAny true (rec (.complete i o) a).1 b st (rec (.complete i o) a).2.2
+  generalize waAfterChild rec k.isAny true (rec (.complete i o) a).1 b st (rec (.complete i o) a).2.2 = x at hx hphx ⊢
   have dB := par_deliver rec n hrec (rec (.complete i o) a).2.2.isNone (.complete i o) x.2.1 x.2.2.1.rb
     hx.cb (hx.hb ▸ hx.lb) hx.rb hx.nb
   generalize recIf rec (rec (.complete i o) a).2.2.isNone (.complete i o) x.2.1 = rb at dB ⊢
-  have hy := waAfterChild_par rec n hA hB hrec false x.1 rb.1 x.2.2.1 rb.2.2
+  have hy := waAfterChild_par rec n hA hB hrec k.isAny false x.1 rb.1 x.2.2.1 rb.2.2
     hx.ca dB.1 hx.ha (dB.2.1.trans hx.hb) hx.la hx.lb (by simp only [Bool.false_eq_true, if_false]; exact ⟨hx.ra, hx.na⟩)
     (by simp only [Bool.false_eq_true, if_false]; exact ⟨dB.2.2.1, dB.2.2.2⟩)
-  have hphy := waAfterChild_ph rec false x.1 rb.1 x.2.2.1 rb.2.2
-  exact waFinish_coh _ _ _ _ n hA hB (by rw [hphy, hphx]; exact hph) hy
+  have hphy := waAfterChild_ph rec k.isAny false x.1 rb.1 x.2.2.1 rb.2.2
+  exact waFinish_coh k hk _ _ _ _ n hA hB (by rw [hphy, hphx]; exact hph) hy
 
 /-- record the outcome of `par_deliver` in the state: consistency is re-established -/
 theorem par_record (x' : Op) (rx r : Option Outcome)
     (h1 : ∀ o, r = some o → x'.phase = .finished ∧ rx.isNone = true)
     (h2 : r = none → (rx.isSome = true ↔ x'.phase = .finished) ∧ (rx.isNone = true → x'.phase = .running)) :
-    ((match r with | some o => some o | none => rx).isSome = true ↔ x'.phase = .finished) ∧
-    ((match r with | some o => some o | none => rx).isNone = true → x'.phase = .running) := by
+    ((r.isSome || rx.isSome) = true ↔ x'.phase = .finished) ∧
+    ((r.isSome || rx.isSome) = false → x'.phase = .running) := by
   cases r with
-  | none => exact h2 rfl
+  | none =>
+    have := h2 rfl
+    refine ⟨by simpa using this.1, ?_⟩
+    intro hh; apply this.2; rw [isNone_not]; simpa using hh
   | some o => simp [(h1 o rfl).1]
 
-theorem waStop_coh (rec : Rec) (n hA hB : Nat) (hrec : RecCoh rec n) (a b : Op) (st : BinSt)
+theorem waStop_coh (rec : Rec) (n hA hB : Nat) (hrec : RecCoh rec n) (k : BinKind) (hk : k = .whenAll ∨ k = .whenAny)
+    (a b : Op) (st : BinSt)
     (hph : st.ph = .running) (h : Par a b st n hA hB) (hw : st.ra.isNone = true ∨ st.rb.isNone = true) :
-    Coh (waStop rec a b st).1 ∧
-    ((waStop rec a b st).2.2 = none → (waStop rec a b st).1.phase = .running) ∧
-    (waStop rec a b st).1.height = max hA hB + 1 := by
+    Coh (waStop rec k a b st).1 ∧
+    ((waStop rec k a b st).2.2 = none → (waStop rec k a b st).1.phase = .running) ∧
+    (waStop rec k a b st).1.height = max hA hB + 1 := by
+  have hk' : k = .whenAll ∨ k = .stopWhen ∨ k = .whenAny := by rcases hk with h | h <;> simp [h]
   unfold waStop
   simp only []
   split
-  · rw [coh_par _ _ _ _ (Or.inl rfl)]
+  · rw [coh_par _ _ _ _ hk']
     exact ⟨⟨h.ca, h.cb, by simp [hph], fun _ => ⟨h.ra, h.rb, h.na, h.nb, hw⟩⟩, fun _ => by simp [Op.phase, hph],
       by simp [Op.height, h.ha, h.hb]⟩
   · have dA := par_deliver rec n hrec st.ra.isNone .stop a st.ra h.ca (h.ha ▸ h.la) h.ra h.na
     generalize recIf rec st.ra.isNone Ev.stop a = ra at dA ⊢
     have rA := par_record ra.1 st.ra ra.2.2 dA.2.2.1 dA.2.2.2
     have dB := par_deliver rec n hrec
-      (waRec { st with env := st.env.stop, src := true } true ra.2.2).1.rb.isNone .stop b st.rb h.cb (h.hb ▸ h.lb) h.rb h.nb
-    generalize recIf rec (waRec { st with env := st.env.stop, src := true } true ra.2.2).1.rb.isNone Ev.stop b = rb at dB ⊢
+      (waRec k.isAny { st with env := st.env.stop, src := true } true ra.2.2).1.rb.isNone .stop b st.rb h.cb (h.hb ▸ h.lb) h.rb h.nb
+    generalize recIf rec (waRec k.isAny { st with env := st.env.stop, src := true } true ra.2.2).1.rb.isNone Ev.stop b = rb at dB ⊢
     have rB := par_record rb.1 st.rb rb.2.2 dB.2.2.1 dB.2.2.2
-    apply waFinish_coh _ _ _ _ n hA hB (by simp [waRec_ph, hph])
-    exact ⟨dA.1, dB.1, by simpa [waRec_ra_false, waRec_ra_true] using rA.1, by simpa [waRec_rb_false, waRec_rb_true] using rB.1,
-      by simpa [waRec_ra_false, waRec_ra_true] using rA.2, by simpa [waRec_rb_false, waRec_rb_true] using rB.2,
-      dA.2.1.trans h.ha, dB.2.1.trans h.hb, h.la, h.lb⟩
+    apply waFinish_coh k hk _ _ _ _ n hA hB (by simp [waRec_ph, hph])
+    refine ⟨dA.1, dB.1, ?_, ?_, ?_, ?_, dA.2.1.trans h.ha, dB.2.1.trans h.hb, h.la, h.lb⟩
+    · rw [waRec_ra_of_false, waRec_ra_isSome_true]; exact rA.1
+    · rw [waRec_rb_isSome_false, waRec_rb_of_true]; exact rB.1
+    · rw [isNone_not, waRec_ra_of_false, waRec_ra_isSome_true]; intro hh; exact rA.2 (by simpa using hh)
+    · rw [isNone_not, waRec_rb_isSome_false, waRec_rb_of_true]; intro hh; exact rB.2 (by simpa using hh)
 
-theorem waStart_coh (rec : Rec) (n hA hB : Nat) (hrec : RecCoh rec n) (a b : Op) (st : BinSt) (env0 : Env)
+theorem waStart_coh (rec : Rec) (n hA hB : Nat) (hrec : RecCoh rec n) (k : BinKind) (hk : k = .whenAll ∨ k = .whenAny)
+    (a b : Op) (st : BinSt) (env0 : Env)
     (ia : AllIdle a) (ib : AllIdle b) (ha : a.height = hA) (hb : b.height = hB) (la : hA ≤ n) (lb : hB ≤ n) :
-    Coh (waStart rec a b st env0).1 ∧
-    ((waStart rec a b st env0).2.2 = none → (waStart rec a b st env0).1.phase = .running) ∧
-    (waStart rec a b st env0).1.height = max hA hB + 1 := by
+    Coh (waStart rec k a b st env0).1 ∧
+    ((waStart rec k a b st env0).2.2 = none → (waStart rec k a b st env0).1.phase = .running) ∧
+    (waStart rec k a b st env0).1.height = max hA hB + 1 := by
   unfold waStart
   simp only []
   have cA := hrec.coh (.start { env0 with stopped := env0.stopped, stoppable := true }) a (ha ▸ la) (allIdle_coh a ia)
@@ -466,34 +470,36 @@ theorem waStart_coh (rec : Rec) (n hA hB : Nat) (hrec : RecCoh rec n) (a b : Op)
   have sB := fun S => hrec.start { env0 with stopped := S, stoppable := true } b (hb ▸ lb) ib
   have fB := fun S => hrec.fin (.start { env0 with stopped := S, stoppable := true }) b
   have hhB := fun S => hrec.height (.start { env0 with stopped := S, stoppable := true }) b (hb ▸ lb) (allIdle_coh b ib)
-  apply waFinish_coh _ _ _ _ n hA hB (by simp [waAfterChild_ph, markSrc_ph, waRec_ph, BinSt.init])
-  apply waAfterChild_par rec n hA hB hrec false _ _ _ _ cA (cB _) (hhA.trans ha) ((hhB _).trans hb) la lb
-  · simp only [Bool.false_eq_true, if_false, markSrc_ra, waRec_ra_true, BinSt.init]
+  apply waFinish_coh k hk _ _ _ _ n hA hB (by simp [waAfterChild_ph, markSrc_ph, waRec_ph, BinSt.init])
+  apply waAfterChild_par rec n hA hB hrec k.isAny false _ _ _ _ cA (cB _) (hhA.trans ha) ((hhB _).trans hb) la lb
+  · simp only [Bool.false_eq_true, if_false, markSrc_ra]
     cases hr : ra.2.2 with
-    | none => simp [sA hr]
-    | some o => simp [fA o hr]
-  · simp only [Bool.false_eq_true, if_false, markSrc_rb, waRec_rb_true, BinSt.init]
+    | none => simp [waRec, BinSt.init, sA hr]
+    | some o => simp [waRec, fA o hr]
+  · simp only [Bool.false_eq_true, if_false, markSrc_rb, waRec_rb_of_true, BinSt.init]
     refine ⟨fun o ho => ⟨fB _ _ ho, by simp⟩, fun hn => ?_⟩
     simp [sB _ hn]
 
-theorem waStep_coh (rec : Rec) (n : Nat) (hrec : RecCoh rec n) (ev : Ev) (a b : Op) (st : BinSt)
-    (hha : a.height ≤ n) (hhb : b.height ≤ n) (h : Coh (.bin .whenAll a b st)) :
-    StepOk (.bin .whenAll a b st) (waStep rec ev a b st) ev := by
+theorem waStep_coh (rec : Rec) (n : Nat) (hrec : RecCoh rec n) (ev : Ev) (k : BinKind) (hk : k = .whenAll ∨ k = .whenAny)
+    (a b : Op) (st : BinSt)
+    (hha : a.height ≤ n) (hhb : b.height ≤ n) (h : Coh (.bin k a b st)) :
+    StepOk (.bin k a b st) (waStep rec ev k a b st) ev := by
+  have hk' : k = .whenAll ∨ k = .stopWhen ∨ k = .whenAny := by rcases hk with h | h <;> simp [h]
   have h' := h
-  rw [coh_par _ _ _ _ (Or.inl rfl)] at h
+  rw [coh_par _ _ _ _ hk'] at h
   obtain ⟨hca, hcb, hidle, hrun⟩ := h
   unfold waStep
   cases hph : st.ph <;> cases ev <;> simp only []
   case idle.start env0 =>
-    obtain ⟨w1, w2, w3⟩ := waStart_coh rec n a.height b.height hrec a b st env0 (hidle hph).1 (hidle hph).2 rfl rfl hha hhb
+    obtain ⟨w1, w2, w3⟩ := waStart_coh rec n a.height b.height hrec k hk a b st env0 (hidle hph).1 (hidle hph).2 rfl rfl hha hhb
     exact ⟨w1, fun _ => w2, fun _ _ => w2, w3⟩
   case running.stop =>
     obtain ⟨r1, r2, r3, r4, r5⟩ := hrun hph
-    obtain ⟨w1, w2, w3⟩ := waStop_coh rec n a.height b.height hrec a b st hph ⟨hca, hcb, r1, r2, r3, r4, rfl, rfl, hha, hhb⟩ r5
+    obtain ⟨w1, w2, w3⟩ := waStop_coh rec n a.height b.height hrec k hk a b st hph ⟨hca, hcb, r1, r2, r3, r4, rfl, rfl, hha, hhb⟩ r5
     exact ⟨w1, fun _ => w2, fun _ _ => w2, w3⟩
   case running.complete i o =>
     obtain ⟨r1, r2, r3, r4, r5⟩ := hrun hph
-    obtain ⟨w1, w2, w3⟩ := waComplete_coh rec n a.height b.height hrec a b st i o hph ⟨hca, hcb, r1, r2, r3, r4, rfl, rfl, hha, hhb⟩
+    obtain ⟨w1, w2, w3⟩ := waComplete_coh rec n a.height b.height hrec k hk a b st i o hph ⟨hca, hcb, r1, r2, r3, r4, rfl, rfl, hha, hhb⟩
     exact ⟨w1, fun _ => w2, fun _ _ => w2, w3⟩
   all_goals
     exact stepOk_unchanged _ _ _ h' (by intro hi ⟨e, he⟩; first | (simp [AllIdle, hph] at hi; done) | cases he)
@@ -506,6 +512,11 @@ theorem setRa_rb (st : BinSt) (r : Option Outcome) : (setRa st r).rb = st.rb := 
 theorem setRb_rb (st : BinSt) (r : Option Outcome) :
     (setRb st r).rb = (match r with | some o => some o | none => st.rb) := by cases r <;> simp [setRb]
 theorem setRb_ra (st : BinSt) (r : Option Outcome) : (setRb st r).ra = st.ra := by cases r <;> simp [setRb]
+
+theorem setRa_ra_isSome (st : BinSt) (r : Option Outcome) : ((setRa st r).ra).isSome = (r.isSome || st.ra.isSome) := by
+  cases r <;> simp [setRa]
+theorem setRb_rb_isSome (st : BinSt) (r : Option Outcome) : ((setRb st r).rb).isSome = (r.isSome || st.rb.isSome) := by
+  cases r <;> simp [setRb]
 
 theorem swAfterChild_par (rec : Rec) (n hA hB : Nat) (hrec : RecCoh rec n) (isA : Bool) (a b : Op) (st : BinSt)
     (r : Option Outcome)
@@ -577,13 +588,13 @@ theorem swFinish_coh (a b : Op) (st : BinSt) (outs : List Out) (n hA hB : Nat) (
   unfold swFinish
   split
   · rename_i hc
-    rw [coh_par _ _ _ _ (Or.inr rfl)]
+    rw [coh_par _ _ _ _ (Or.inr (Or.inl rfl))]
     refine ⟨⟨h.ca, h.cb, by simp, by simp⟩, ?_, by simp [Op.height, h.ha, h.hb]⟩
     intro hn
     simp only [Bool.and_eq_true] at hc
     cases hra : st.ra <;> simp_all
   · rename_i hc
-    rw [coh_par _ _ _ _ (Or.inr rfl)]
+    rw [coh_par _ _ _ _ (Or.inr (Or.inl rfl))]
     refine ⟨⟨h.ca, h.cb, by simp [hph], fun _ => ⟨h.ra, h.rb, h.na, h.nb, ?_⟩⟩, fun _ => by simp [Op.phase, hph],
       by simp [Op.height, h.ha, h.hb]⟩
     cases h1 : st.ra <;> cases h2 : st.rb <;> simp_all
@@ -619,7 +630,7 @@ theorem swStop_coh (rec : Rec) (n hA hB : Nat) (hrec : RecCoh rec n) (a b : Op) 
   unfold swStop
   simp only []
   split
-  · rw [coh_par _ _ _ _ (Or.inr rfl)]
+  · rw [coh_par _ _ _ _ (Or.inr (Or.inl rfl))]
     exact ⟨⟨h.ca, h.cb, by simp [hph], fun _ => ⟨h.ra, h.rb, h.na, h.nb, hw⟩⟩, fun _ => by simp [Op.phase, hph],
       by simp [Op.height, h.ha, h.hb]⟩
   · have dA := par_deliver rec n hrec st.ra.isNone .stop a st.ra h.ca (h.ha ▸ h.la) h.ra h.na
@@ -630,9 +641,11 @@ theorem swStop_coh (rec : Rec) (n hA hB : Nat) (hrec : RecCoh rec n) (a b : Op) 
     generalize recIf rec (setRa { st with env := st.env.stop, src := true } ra.2.2).rb.isNone Ev.stop b = rb at dB ⊢
     have rB := par_record rb.1 st.rb rb.2.2 dB.2.2.1 dB.2.2.2
     apply swFinish_coh _ _ _ _ n hA hB (by simp [setRa_ph, setRb_ph, hph])
-    exact ⟨dA.1, dB.1, by simpa [setRb_ra, setRa_ra] using rA.1, by simpa [setRb_rb, setRa_rb] using rB.1,
-      by simpa [setRb_ra, setRa_ra] using rA.2, by simpa [setRb_rb, setRa_rb] using rB.2,
-      dA.2.1.trans h.ha, dB.2.1.trans h.hb, h.la, h.lb⟩
+    refine ⟨dA.1, dB.1, ?_, ?_, ?_, ?_, dA.2.1.trans h.ha, dB.2.1.trans h.hb, h.la, h.lb⟩
+    · rw [setRb_ra, setRa_ra_isSome]; exact rA.1
+    · rw [setRb_rb_isSome, setRa_rb]; exact rB.1
+    · rw [isNone_not, setRb_ra, setRa_ra_isSome]; intro hh; exact rA.2 (by simpa using hh)
+    · rw [isNone_not, setRb_rb_isSome, setRa_rb]; intro hh; exact rB.2 (by simpa using hh)
 
 theorem swStart_coh (rec : Rec) (n hA hB : Nat) (hrec : RecCoh rec n) (a b : Op) (st : BinSt) (env0 : Env)
     (ia : AllIdle a) (ib : AllIdle b) (ha : a.height = hA) (hb : b.height = hB) (la : hA ≤ n) (lb : hB ≤ n) :
@@ -664,7 +677,7 @@ theorem swStep_coh (rec : Rec) (n : Nat) (hrec : RecCoh rec n) (ev : Ev) (a b : 
     (hha : a.height ≤ n) (hhb : b.height ≤ n) (h : Coh (.bin .stopWhen a b st)) :
     StepOk (.bin .stopWhen a b st) (swStep rec ev a b st) ev := by
   have h' := h
-  rw [coh_par _ _ _ _ (Or.inr rfl)] at h
+  rw [coh_par _ _ _ _ (Or.inr (Or.inl rfl))] at h
   obtain ⟨hca, hcb, hidle, hrun⟩ := h
   unfold swStep
   cases hph : st.ph <;> cases ev <;> simp only []
@@ -686,11 +699,13 @@ theorem binStep_coh (rec : Rec) (n : Nat) (hrec : RecCoh rec n) (ev : Ev) (k : B
     (hha : a.height ≤ n) (hhb : b.height ≤ n) (h : Coh (.bin k a b st)) :
     StepOk (.bin k a b st) (binStep rec ev k a b st) ev := by
   by_cases h1 : k = .whenAll
-  · subst h1; exact waStep_coh rec n hrec ev a b st hha hhb h
-  · by_cases h2 : k = .stopWhen
-    · subst h2; exact swStep_coh rec n hrec ev a b st hha hhb h
-    · have : binStep rec ev k a b st = seqStep rec ev k a b st := by cases k <;> simp_all [binStep]
-      rw [this]; exact seqStep_coh rec n hrec ev k a b st h1 h2 hha hhb h
+  · subst h1; exact waStep_coh rec n hrec ev _ (Or.inl rfl) a b st hha hhb h
+  · by_cases h3 : k = .whenAny
+    · subst h3; exact waStep_coh rec n hrec ev _ (Or.inr rfl) a b st hha hhb h
+    · by_cases h2 : k = .stopWhen
+      · subst h2; exact swStep_coh rec n hrec ev a b st hha hhb h
+      · have : binStep rec ev k a b st = seqStep rec ev k a b st := by cases k <;> simp_all [binStep]
+        rw [this]; exact seqStep_coh rec n hrec ev k a b st h1 h2 h3 hha hhb h
 
 theorem leafStep_ok (ev : Ev) (i : Nat) (ph : Phase) (nt : Bool) :
     StepOk (.leaf i ph nt) (leafStep specs ev i ph nt) ev := by
